@@ -1,5 +1,11 @@
 //! uvh: runtime-monitoring harness for umya-spreadsheet (properties C01..C20).
 mod common;
+mod dump;
+mod gen;
+mod c01;
+mod c05;
+mod c06;
+mod zipx;
 mod c17;
 mod c18;
 mod c19;
@@ -9,6 +15,9 @@ fn main() {
     common::install_panic_hook();
     let args = common::Args::parse();
     match args.cmd.as_str() {
+        "c01" => c01::run(&args),
+        "c05" => c05::run(&args),
+        "c06" => c06::run(&args),
         "c17" => c17::run(&args),
         "c18" => c18::run(&args),
         "c19" => c19::run(&args),
